@@ -457,7 +457,9 @@ var interpretedForeign = map[string]bool{"slices": true, "maps": true, "cmp": tr
 func interpretedForeignFunc(fn *ssa.Function) bool {
 	n := fn.String()
 	return strings.HasPrefix(n, "(*github.com/alecthomas/participle/v2.ParseError).") || strings.HasPrefix(n, "(*github.com/alecthomas/participle/v2.UnexpectedTokenError).") ||
-		strings.HasPrefix(n, "(*gopkg.in/yaml.v3.TypeError).")
+		strings.HasPrefix(n, "(*gopkg.in/yaml.v3.TypeError).") ||
+		// pure bit tests on the kind of a file-system event (a watch loop may look at the events it receives)
+		n == "(github.com/fsnotify/fsnotify.Op).Has" || n == "(github.com/fsnotify/fsnotify.Event).Has"
 }
 
 // callSSA interprets a call to function fn with arguments args,
